@@ -4,7 +4,7 @@
 
    An endpoint (Send or Receive) is observed at its own boundary:
      Out p        the endpoint calls conn.SendMsg(p)            (recorded when the call starts)
-     In p         conn.RecvMsg returned packet p to the endpoint (recorded when the call returns)
+     Inp p         conn.RecvMsg returned packet p to the endpoint (recorded when the call returns)
      InEof        conn.RecvMsg returned io.EOF (the peer closed its sending side)
      Fault        a local failure became visible to the endpoint (an injected FS error,
                   a stream operation failing for a reason other than EOF, a cancelled context)
@@ -26,7 +26,7 @@ Inductive pkt : Type :=
 
 Inductive event : Type :=
 | Out (p : pkt)
-| In (p : pkt)
+| Inp (p : pkt)
 | InEof
 | Fault
 | Progress (n : N) (last : bool)
@@ -82,15 +82,15 @@ Fixpoint nremove {A} (k : N) (m : list (N * A)) : list (N * A) :=
 Definition stats_out (tr : list event) : list (option stat) :=
   flat_map (fun e => match e with Out (PStat s) => [s] | _ => [] end) tr.
 Definition stats_in (tr : list event) : list (option stat) :=
-  flat_map (fun e => match e with In (PStat s) => [s] | _ => [] end) tr.
+  flat_map (fun e => match e with Inp (PStat s) => [s] | _ => [] end) tr.
 (* payloads of the DATA packets of id n, in trace order (terminators appear as []) *)
 Definition data_out (n : N) (tr : list event) : list bytes :=
   flat_map (fun e => match e with Out (PData m d) => if N.eqb m n then [d] else [] | _ => [] end) tr.
 Definition data_in (n : N) (tr : list event) : list bytes :=
-  flat_map (fun e => match e with In (PData m d) => if N.eqb m n then [d] else [] | _ => [] end) tr.
+  flat_map (fun e => match e with Inp (PData m d) => if N.eqb m n then [d] else [] | _ => [] end) tr.
 Definition progress_of (tr : list event) : list (N * bool) :=
   flat_map (fun e => match e with Progress n l => [(n, l)] | _ => [] end) tr.
-Definition is_in (e : event) : bool := match e with In _ | InEof => true | _ => false end.
+Definition is_in (e : event) : bool := match e with Inp _ | InEof => true | _ => false end.
 Definition is_return (e : event) : bool := match e with Return _ => true | _ => false end.
 
 (* the stats among a STAT sequence (end markers dropped) *)
@@ -99,7 +99,7 @@ Definition some_stats (l : list (option stat)) : list stat :=
 
 (* ---- exchange format ----
    pkt:   (#0) empty STAT | (#0 stat) | (#1 id) | (#2 id data) | (#3) | (#4 msg)
-   event: (#0 pkt) Out | (#1 pkt) In | (#2) InEof | (#3) Fault | (#4 n last) Progress | (#5 ok) Return *)
+   event: (#0 pkt) Out | (#1 pkt) Inp | (#2) InEof | (#3) Fault | (#4 n last) Progress | (#5 ok) Return *)
 Definition dec_pkt (s : sx) : option pkt :=
   match s with
   | SL [SN 0] => Some (PStat None)
@@ -114,7 +114,7 @@ Definition dec_pkt (s : sx) : option pkt :=
 Definition dec_event (s : sx) : option event :=
   match s with
   | SL [SN 0; p] => x <- dec_pkt p ;; Some (Out x)
-  | SL [SN 1; p] => x <- dec_pkt p ;; Some (In x)
+  | SL [SN 1; p] => x <- dec_pkt p ;; Some (Inp x)
   | SL [SN 2] => Some InEof
   | SL [SN 3] => Some Fault
   | SL [SN 4; SN n; l] => b <- sx_bool l ;; Some (Progress n b)
